@@ -38,7 +38,7 @@ ASSUME /\ Roles \subseteq AllRoles /\ DescRoles \subseteq AllDescRoles /\ Header
        /\ CellAttrs \subseteq AllCellAttrs /\ Objects \subseteq AllObjects
 
 Features == [editable : BOOLEAN, role : Roles, descRole : DescRoles, datatable0 : BOOLEAN,
-             nested : BOOLEAN, rows : RowVals, cols : ColVals, short : BOOLEAN, latewide : BOOLEAN,
+             nested : BOOLEAN, rows : RowVals, cols : ColVals, short : BOOLEAN, latewide : BOOLEAN, span : BOOLEAN,
              header : Headers, cellAttr : CellAttrs, summary : BOOLEAN, object : Objects]
 
 (***************************************************************************)
@@ -53,8 +53,12 @@ ShortApplies(f) == f.short /\ f.cols > 1 /\ f.rows >= 3   \* another full row of
 \* latewide: every row but the last holds a single td cell, only the last row is f.cols cells wide (a long
 \* one-column list that ends in a total row): the column count is the MAXIMUM over all rows
 LateWide(f) == f.latewide /\ ~f.short /\ f.cols > 1 /\ f.rows >= 2
+\* span: the first td cell of every row spans two columns (colspan="2"): the table is f.cols columns wide with one
+\* td cell less in every row
+Span(f) == f.span /\ ~f.short /\ ~f.latewide /\ f.cols > 2
 RowOf(f, r) ==
-    LET n == IF LateWide(f) /\ r < f.rows THEN 1
+    LET n == IF Span(f) THEN f.cols - 1
+             ELSE IF LateWide(f) /\ r < f.rows THEN 1
              ELSE IF ShortApplies(f) /\ r = f.rows THEN f.cols - 1 ELSE f.cols
         k == IF f.header = "th" /\ r = 1 THEN "th" ELSE "td"
     IN  (IF f.header = "rowth" THEN <<"th">> ELSE << >>) \o [c \in 1..n |-> k]
@@ -68,7 +72,8 @@ FirstTdRow(f) == IF f.header = "th" THEN 2 ELSE 1    \* the row holding the deco
 CodeRows(f)  == f.rows + (IF f.nested /\ FirstTdRow(f) <= f.rows THEN 1 ELSE 0)      \* every tr, nested ones too
 CodeCols(f)  == LET t == Build(f)
                 IN  \* the nested table (one td of its own) sits in the LAST td cell of the table
-                    Max({TdIn(t[r]) + (IF f.nested /\ r = f.rows /\ FirstTdRow(f) <= f.rows THEN 1 ELSE 0) : r \in 1..f.rows})
+                    Max({TdIn(t[r]) + (IF f.nested /\ r = f.rows /\ FirstTdRow(f) <= f.rows THEN 1 ELSE 0)
+                                    + (IF Span(f) /\ TdIn(t[r]) > 0 THEN 1 ELSE 0) : r \in 1..f.rows})     \* colspan="2" counts twice
 CodeCells(f) == LET t == Build(f) IN                                \* direct td only
                    LET RECURSIVE Sum(_)
                        Sum(r) == IF r = 0 THEN 0 ELSE TdIn(t[r]) + Sum(r - 1)
@@ -114,7 +119,8 @@ Documented(f) ==
     ELSE IF f.summary THEN "data"
     ELSE IF f.cols >= 5 THEN "data"
     ELSE IF f.rows >= 20 THEN "data"
-    ELSE IF (IF LateWide(f) THEN f.rows - 1 + f.cols ELSE f.rows * f.cols - (IF ShortApplies(f) THEN 1 ELSE 0)) <= 10
+    ELSE IF (IF Span(f) THEN f.rows * (f.cols - 1)
+             ELSE IF LateWide(f) THEN f.rows - 1 + f.cols ELSE f.rows * f.cols - (IF ShortApplies(f) THEN 1 ELSE 0)) <= 10
          THEN "layout"                                                        \* at most 10 cells
     ELSE IF f.object # "none" THEN "layout"
     ELSE "data"
@@ -128,14 +134,15 @@ vars == <<f, i, verdict, reason>>
 Row0 == CHOOSE r \in RowVals : TRUE
 Col0 == CHOOSE c \in ColVals : TRUE
 Init == /\ f \in [editable : BOOLEAN, role : Roles, descRole : DescRoles, datatable0 : BOOLEAN,
-                   nested : BOOLEAN, rows : {Row0}, cols : {Col0}, short : {FALSE}, latewide : {FALSE},
+                   nested : BOOLEAN, rows : {Row0}, cols : {Col0}, short : {FALSE}, latewide : {FALSE}, span : {FALSE},
                    header : {"none"}, cellAttr : {"none"}, summary : BOOLEAN, object : {"none"}]
         /\ i = 0 /\ verdict = "none" /\ reason = "none"
 
 Pick == /\ i = 0
-        /\ \E r \in RowVals, c \in ColVals, sh \in BOOLEAN, lw \in BOOLEAN, h \in Headers, a \in CellAttrs, o \in Objects :
+        /\ \E r \in RowVals, c \in ColVals, sh \in BOOLEAN, lw \in BOOLEAN, sp \in BOOLEAN, h \in Headers, a \in CellAttrs, o \in Objects :
               /\ ~(sh /\ lw) /\ (lw => c > 1 /\ r >= 20)       \* the late wide row only matters for long tables
-              /\ f' = [f EXCEPT !.rows = r, !.cols = c, !.short = sh, !.latewide = lw, !.header = h, !.cellAttr = a, !.object = o]
+              /\ (sp => ~sh /\ ~lw /\ c = 4 /\ r = 2)           \* spanning cells only matter next to the column threshold
+              /\ f' = [f EXCEPT !.rows = r, !.cols = c, !.short = sh, !.latewide = lw, !.span = sp, !.header = h, !.cellAttr = a, !.object = o]
         /\ i' = 1
         /\ UNCHANGED <<verdict, reason>>
 
